@@ -87,6 +87,8 @@ def main(tier):
     # transport side: kick and drift reproduce polynomials of degree <= 2 (so they transport second moments exactly) for >= 3 interpolation points
     import c02
     jobs += [(c02.job_poly, (n, it, axis, r, 1)) for n in (10, 11) for it in (3, 4) for axis in (0, 1) for r in (2, 6)]
+    import c08
+    jobs += [(c08.job_fixed_map, (w, 6, 3, 3, 3, 3)) for w in ('drift', 'rflin', 'fpm')]      # relaxation is per bunch: every bunch of a train gets the drift, the RF kick and the damping/diffusion of a single bunch
     import mainparams
     jobs += [(mainparams.job_map_parameters, ('C04',))]      # O-main: the damping decrement main hands to the map: 2/(x*y*steps), inversely proportional to the configured step count
     # observation side: the reported bunch length / energy spread are the second moments of the profiles over the charge actually on the grid (whatever was lost before)
@@ -101,7 +103,9 @@ def main(tier):
     _r4 = replayer(bld); _r2 = _c02.replayer(bld)
     import c09 as _c09
     _r9 = _c09.replayer(_c09.ps_build())
-    chk.replayer = lambda path, c: (_r2 if c.get('replay') == 'poly' else _r9 if c.get('replay') in ('moments', 'normalize') else _r4)(path, c)
+    import c08 as _c08
+    _r8 = _c08.replayer(bld)
+    chk.replayer = lambda path, c: (_r8 if ('bunch' in c and 'nb' in c and c.get('replay') in _c08.WHAT2RUN) else _r2 if c.get('replay') == 'poly' else _r9 if c.get('replay') in ('moments', 'normalize') else _r4)(path, c)
     _unused = None
     chk.add(run_jobs(jobs, budget=600))
     chk.finish()
